@@ -441,6 +441,7 @@ func (H) Run(ch *choice.Source, opt harness.Options) harness.Result {
 		}
 	}
 
+	opt.Describe(map[string]any{"config": c, "swarm": r.Swarm})
 	end := r.Run()
 
 	res := harness.Result{
